@@ -335,6 +335,7 @@ package netconf
 //@ func NewDriver [C19 C08]
 //@   at call! NewDriver#1 assert #the-generic-driver-gets-the-host-and-all-options-plus-the-netconf-marker arg0 == old(host) && len(arg1) == len(old(opts)) + 1 && arg1[0:len(old(opts))] === old(opts)
 //@   after call NewDriver#1 set optBaseN = optlog
+//@   loop 1 invariant [C19] #before-its-own-options-the-netconf-driver-logs-through-what-the-logging-options-built rangeindex == -1 ==> d.Logger == gd.Logger
 //@   loop 1 invariant -1 <= rangeindex && rangeindex < len(opts) && isnew(d) && d != nil
 //@   loop 1 invariant #every-option-applied-in-order optlog == optBaseN ++ applied(opts, box("*netconf.Driver", d), rangeindex + 1)
 //@   loop 1 invariant rangeindex == -1 ==> d.messageID == 101 && d.messages != nil && d.subscriptions != nil
